@@ -38,3 +38,25 @@ Print Assumptions C10_raw_is_exact_opt_out.
 (* non-vacuity *)
 Example C10_example : esc_spec (bs "<a href='x'>&amp;</a>") = bs "&lt;a href='x'&gt;&amp;amp;&lt;/a&gt;".
 Proof. reflexivity. Qed.
+
+(* ---- from the source bytes (Proofs/LiteralPipeline.v): for EVERY literal content s - any bytes but NUL,
+   the quote character in use and the backslash; line feeds, the other quote, < > & and bytes that
+   are not valid UTF-8 included - the template {{ "s" }} (either quote style) is lexed to {{, ONE string
+   token whose literal is s, }}; parsed to one expression statement; and rendered as esc_spec s,
+   whatever the data.  The theorems above say what esc_spec s is. *)
+From TW Require Import GenToken Lexer Ast Parser Eval Render ExprSem LexSpell LexRound LiteralPipeline.
+
+Theorem C10_string_literal_renders_escaped_from_source_bytes q s gd en :
+  (q = 34 \/ q = 39) -> plain_lit q s = true -> env_from_map gd = EnvOk en ->
+  exists t, lex_all (lit_source q s) = Some (place (lit_source q s) 0 (lit_items q s)) /\
+            nth_error (place (lit_source q s) 0 (lit_items q s)) 1 = Some t /\ ttype t = T_STR /\ tlit t = s /\
+            parse_source (lit_source q s) = ParsedOk (mkProgram [SExpr (EStr (eline t) s)] None [] [] []) /\
+            evaluate_string cx0 (lit_source q s) gd = RenderOk (esc_spec s).
+Proof. exact (string_literal_renders_escaped q s gd en). Qed.
+Print Assumptions C10_string_literal_renders_escaped_from_source_bytes.
+
+Example C10_from_source_example :
+  lit_source 34 (bs "<a href='x'>&amp;</a>") = bs "{{ ""<a href='x'>&amp;</a>"" }}" /\
+  plain_lit 34 (bs "<a href='x'>&amp;</a>") = true /\
+  evaluate_string cx0 (bs "{{ ""<a href='x'>&amp;</a>"" }}") [] = RenderOk (bs "&lt;a href='x'&gt;&amp;amp;&lt;/a&gt;").
+Proof. repeat split; vm_compute; reflexivity. Qed.
